@@ -16,7 +16,7 @@
 (***************************************************************************)
 EXTENDS ParsleyMachine, Grammar, Json, SequencesExt
 
-CONSTANTS Fam,        \* which family: "F1" "F2" "NM" "HID" "F3" "CAT"
+CONSTANTS Fam,        \* which family: "F1" "F2" "NM" "HID" "HID2" "F3" "OPT" "LINES" "CAT"
           MaxLen,     \* inputs: all strings over Alphabet of length 0..MaxLen
           Alphabet,   \* byte values
           Base,       \* base offset of the parsed file (1 = alone in its file set)
@@ -35,6 +35,9 @@ FamilySet == CASE Fam = "F1" -> {<<b>> : b \in F1Bodies}
                [] Fam = "NM" -> {<<b>> : b \in NMBodies}
                [] Fam = "HID" -> {<<b>> : b \in HiddenBodies}
                [] Fam = "F3" -> F3Pairs
+               [] Fam = "HID2" -> Hidden2Pairs
+               [] Fam = "OPT" -> {<<b>> : b \in OptBodies}
+               [] Fam = "LINES" -> {<<b>> : b \in LineBodies}
                [] OTHER -> Catalogue
 FamilySeq == SetToSeq(FamilySet)
 Chosen == {FamilySeq[i] : i \in {j \in 1..Len(FamilySeq) : j % NSlices = Slice}}
